@@ -27,7 +27,7 @@ def frozen_step(i, op, per, closed, tk, slots, born, now, bad):
     that were already waiting for a connection that hangs up in the batch get their NoReply; calls of the batch that were
     delivered to connections still there open slots"""
     from . import c05
-    c05.frozen_clause(i, op, per, tk, bad, dropped=closed)
+    c05.frozen_clause(i, op, per, tk, bad, dropped=closed, used={c: {str(s[2]) for s in slots if s[0] == c} for c in {s[0] for s in slots}})
     closing = {s[1] for s in op[1] if s[0] == "close"} | set(closed)
     sends = [s for s in op[1] if s[0] == "send"]
     lines = buscheck.decode_sent([s[2] for s in sends])
@@ -138,6 +138,8 @@ def oracle(tr, reply_timeout=None):
                     slots.remove(s)
         for c in set(noreply) | set(expected_noreply):
             a, b = sorted(noreply.get(c, [])), sorted(expected_noreply.get(c, []))
+            if c in unsure and set(b) <= set(a) and len(set(a)) == len(a):
+                continue        # (this caller may have calls outstanding that the oracle could not follow)
             if a != b and c in tk.live and c not in gone and c not in tk.stalled and op[0] != "unstall":
                 bad.append((None, "step %d: connection %d got NoReply for serials %s, outstanding calls say %s" % (i, c, a, b)))
         tk.after(i, tr)
